@@ -871,6 +871,7 @@ def run_registry(ctx, reg, reg_id, types, per_type, depth, max_cases=2000, n_abs
                         "resolver_kwargs": outcomes["var"][1], "literal_route_same": outcomes.get("lit") == outcomes["var"]})
     run_abstract(ctx, chk, world, reg, reg_id)
     run_trace(ctx, chk, world, reg, reg_id, specs, n_trace)
+    run_allowed(ctx, world, reg, reg_id, specs, n_trace)
     if ctx.model_ok and items:
         answers = ask_model(ctx, reg, items)
         for it, ans, (g, route, d, spec) in zip(items, answers, metas):
@@ -981,6 +982,49 @@ def run_trace(ctx, chk, world, reg, reg_id, specs, n):
             if not ok:
                 ctx.fail("corr:trace:impl-%dcalls-model-%dcalls" % (len(calls), len(mcalls)), "order of coercion and resolver calls: trace model and implementation differ",
                          dict(detail, request=it, model_events=evs, impl_error_paths=ipaths), kind="correspondence")
+
+
+def run_allowed(ctx, world, reg, reg_id, specs, n):
+    """The validator's side of the bridge theorem: `Schema.is_subtype` and the verdict of VariablesInAllowedPosition on
+    `query($v: VT [= default]) { f(x: $v) }` against the model's `isSubtype` / `allowedUsage`."""
+    from py_gql.lang import parse
+    from py_gql.validation import validate_ast
+    rng = ctx.rng
+    items, impl, metas = [], [], []
+    cand = [i for i, sp in enumerate(specs) if len(sp) == 1]
+    for _ in range(n):
+        if not cand or ctx.out_of_time():
+            break
+        si = rng.choice(cand)
+        a = specs[si][0]
+        lt = a["type"]
+        base = U.ty_base(lt)
+        vt = rng.choice([lt, nullable(lt), NN(nullable(lt)), L(lt), nullable(lt)[1] if nullable(lt)[0] == "list" else lt,
+                         L(NN(N(base))), N(base), NN(N(base)), N(rng.choice(names_of(reg)))])
+        if vt[0] == "nonNull" and vt[1][0] == "nonNull":
+            continue
+        good = [j for j in U.values_for(reg, vt, rng, 1, False, 4) if j is not None and U.must_accept(reg, vt, j)]
+        dmode = rng.choice(["none", "null", "value"]) if (good and vt[0] != "nonNull") else "none"
+        dlit = None if dmode == "none" else (("null",) if dmode == "null" else U.ast_of_json(reg, vt, good[0]))
+        doc = "query($v: %s%s) { f%d(%s: $v) }" % (ty_str(vt), "" if dlit is None else " = " + U.render_lit(dlit), si, a["name"])
+        try:
+            res = validate_ast(world.schema, parse(doc))
+            verdict = not any("used in position expecting type" in str(e) for e in res.errors)
+            sub = bool(world.schema.is_subtype(world.ty_py(vt), world.ty_py(lt)))
+        except Exception as e:  # noqa
+            ctx.stat("allowed:internal:%s" % type(e).__name__)
+            continue
+        ctx.count()
+        ctx.stat("allowed:%s" % verdict)
+        items.append({"op": "allowed", "vt": ty_json(vt), "lt": ty_json(lt), "vdef": dmode == "value", "ldef": a["default"] is not None})
+        impl.append((sub, verdict))
+        metas.append(doc)
+    if ctx.model_ok and items:
+        for it, ans, im, doc in zip(items, ask_model(ctx, reg, items), impl, metas):
+            if (ans.get("sub"), ans.get("allowed")) != im:
+                ctx.fail("corr:allowed-usage:impl-%s-model-%s" % (im, (ans.get("sub"), ans.get("allowed"))),
+                         "is_subtype / VariablesInAllowedPosition: model and implementation differ",
+                         {"reg": U.reg_to_jsonable(reg), "document": doc, "request": it, "impl": list(im), "model": ans}, kind="correspondence")
 
 
 def ty_depth(t):
